@@ -32,12 +32,22 @@ def main(seed, n_graphs, n_steps):
 
     for _ in range(n_graphs):
         g = SceneGraph(base_frame="world")
+        shadow = {}      # the driver's own parent map: cycle avoidance must not depend on the code under test
+
+        def ancestors(x):
+            out = set()
+            while x in shadow and x not in out:
+                out.add(x)
+                x = shadow[x]
+            out.add(x)
+            return out
         for _ in range(n_steps):
             op = rs.randint(10)
             u, v = names[rs.randint(len(names))], names[rs.randint(1, len(names))]
             try:
                 if op < 4:
-                    if u != v and u not in g.transforms.successors(v):
+                    if u != v and v not in ancestors(u):
+                        shadow[v] = u
                         form = rs.randint(3)
                         M = rand_matrix()
                         if form == 0:
@@ -49,6 +59,7 @@ def main(seed, n_graphs, n_steps):
                             g.update(frame_to=v, frame_from=u, quaternion=q, translation=M[:3, 3].copy())
                 elif op == 4:
                     g.transforms.remove_node(v)
+                    shadow = {c: p_ for c, p_ in shadow.items() if c != v and p_ != v}
                 elif op == 5:
                     g.base_frame = names[rs.randint(len(names))]
                 else:
